@@ -67,7 +67,7 @@ def main(tier):
             solo[(s, role)] = {int(m.group(1)): m.group(2) for m in re.finditer(r"^P %d (\d+) (.*)$" % role, out, re.M)}
     bseqs = seqs if not quick else [x for x in ("dt", "hg", "dx", "gx", "th", "hd", "kg", "fg") if x in seqs]
     jobs = [(sa, sb, il) for sa in seqs for sb in bseqs for il in interleavings(2, 2)]
-    jobs += [(sa, sb, il) for sa in cseqs for sb in ("cr", "rc", "rx", "hg") for il in interleavings(2, 2) if (sa, sb, il) not in set(jobs)]
+    jobs = [(sa, sb, il) for sa in cseqs for sb in ("cr", "rc", "rx", "hg") for il in interleavings(2, 2)] + jobs
 
     def iso_run(j):
         sa, sb, il = j
